@@ -16,7 +16,7 @@ pub trait Kind: 'static {
         + core::fmt::Debug
         + core::fmt::Display
         + for<'a> TryFrom<&'a [u8], Error = ParseError>;
-    type G: GeneratorType<Output = Self::H> + Clone + core::fmt::Debug;
+    type G: GeneratorType<Output = Self::H> + Clone + core::fmt::Debug + Default;
     const NAME: &'static str;
     const ID: u8;
     const BUCKETS: usize;
